@@ -15,8 +15,14 @@
    to (Rust's f64 Display / FromStr round trip and correctly rounded decimal parsing are assumptions of the
    model, exercised by the correspondence check).
 
-   [fversion]: OrigF = the folder before fixes/fold-negate.diff and the `%` part of
-   fixes/num-rem-min-by-minus-one.diff, FixedF = after. *)
+   [fversion]: OrigF = the folder before fixes/fold-negate.diff, the `%` part of
+   fixes/num-rem-min-by-minus-one.diff and the folder part of fixes/num-shl-lost-bits.diff (`<<` through
+   ExactShl::exact_shl instead of checked_shl), FixedF = after.
+
+   fixes/literal-kind-decided-once.diff moves the widening of an integer literal that does not fit 32 bits
+   from CompileTimeEvaluate for Number into number_from_string ([literal_int] below): the folder sees the
+   same Number either way ([fold_leaf_literal_int]); what changes is the code generated for a literal the
+   folder never evaluates (an operand of a comparison), which [eval_rt] already describes. *)
 From MS Require Export Num.NumImpl.
 
 Inductive fversion := OrigF | FixedF.
@@ -101,6 +107,11 @@ Definition fold_leaf (n : number) : fres :=
   | NBigInt t => match parse_as (P_ity I128) t with Some _ => FVal (CNum n) | None => FErr end
   | _ => FVal (CNum n)
   end.
+
+(* number_from_string for Rule::integer / Rule::hex_int with fixes/literal-kind-decided-once.diff:
+   int_or_bigint(value, text); a literal beyond i128 is a parse error before it (`as_str.parse()?`) *)
+Definition literal_int (z : Z) : option number :=
+  if in_range I128 z then Some (if in_range I32 z then NInteger (Src z) else NBigInt (Src z)) else None.
 
 (* ---------------------------------------------------------------- Number::negate *)
 Definition negate_num (v : fversion) (n : number) : res (option number) :=
@@ -201,10 +212,13 @@ Definition fold_arith (v : fversion) (o : aop) (x y : number) : fres :=
 Definition fold_bit (o : bop) (x y : number) : fres :=
   match int_arms (fun _ a b => Some (bit_op o a b)) x y with Some r => r | None => FErr end.
 
-(* checked_shl / checked_shr (bitshift): lhs parsed as the output type, rhs as u32 *)
-Definition fold_shift (o : sop) (x y : number) : fres :=
+(* checked_shl (fixed: exact_shl) / checked_shr (bitshift): lhs parsed as the output type, rhs as u32 *)
+Definition fold_sh_fn (v : fversion) : ity -> sop -> Z -> Z -> option Z :=
+  match v with OrigF => checked_sh | FixedF => exact_sh end.
+
+Definition fold_shift (v : fversion) (o : sop) (x y : number) : fres :=
   let arm (t : ity) (inj : txt -> number) (a b : txt) :=
-    opt_num inj (cm_checked (P_ity t) P_u32 (checked_sh t o) a b) in
+    opt_num inj (cm_checked (P_ity t) P_u32 (fold_sh_fn v t o) a b) in
   match x, y with
   | NInteger a, NInteger b => arm I32 NInteger a b
   | NInteger a, NBigInt b => arm I128 NBigInt a b
@@ -265,7 +279,7 @@ Fixpoint fold (v : fversion) (e : lexpr) : fres :=
                           match op with
                           | Arith o => fold_arith v o x y
                           | Bit o => fold_bit o x y
-                          | Shift o => fold_shift o x y
+                          | Shift o => fold_shift v o x y
                           | Cmp _ | Equ _ => FNot
                           end
                       | _, _ => FNot
@@ -299,6 +313,29 @@ Fixpoint eval_rt (v : version) (e : lexpr) : res value :=
   | ENeg e1 => bind (eval_rt v e1) (negate v)
   | ENot e1 => bind (eval_rt v e1) not_
   | EBin op l r => bind (eval_rt v l) (fun a => bind (eval_rt v r) (fun b => binop_eval v op a b))
+  end.
+
+(* ---------------------------------------------------------------- a tree the folder leaves to run time *)
+(* When try_constexpr_eval answers Impossible (FNot: a comparison at the root, say) the expression is
+   compiled as written: every literal leaf through Compile for Number (make_int <text> for an Integer,
+   WITHOUT the widening of fold_leaf), the operators at run time. *)
+Fixpoint eval_inline (v : version) (e : lexpr) : res value :=
+  match e with
+  | ENum n => make n
+  | EBool b => Ok (Bool b)
+  | ENeg e1 => bind (eval_inline v e1) (negate v)
+  | ENot e1 => bind (eval_inline v e1) not_
+  | EBin op l r => bind (eval_inline v l) (fun a => bind (eval_inline v r) (fun b => binop_eval v op a b))
+  end.
+
+(* what the parser with fixes/literal-kind-decided-once.diff produces: an Integer leaf fits 32 bits
+   (literal_int turned every other one into a BigInt) *)
+Fixpoint parsed (e : lexpr) : Prop :=
+  match e with
+  | ENum (NInteger (Src z)) => in_range I32 z = true
+  | ENum _ | EBool _ => True
+  | ENeg e1 | ENot e1 => parsed e1
+  | EBin _ l r => parsed l /\ parsed r
   end.
 
 (* source literals: digits without sign; a byte literal fits 8 bits (the parser's u8::from_str_radix) *)
